@@ -444,9 +444,19 @@ func (h *Handler) isAllowed(ip net.IP) bool {
 }
 
 // AddAllowedRoute adds a CIDR route to the allowed routes list.
+// Adding a network that is already listed is a no-op, so that re-adding
+// (updating) a dynamic route followed by a single removal does not leave
+// a stale entry behind.
 func (h *Handler) AddAllowedRoute(network *net.IPNet) {
 	h.routesMu.Lock()
 	defer h.routesMu.Unlock()
+
+	target := network.String()
+	for _, route := range h.cfg.AllowedRoutes {
+		if route.String() == target {
+			return
+		}
+	}
 	h.cfg.AllowedRoutes = append(h.cfg.AllowedRoutes, network)
 }
 
